@@ -1,3 +1,5 @@
 //! Oracles. Links no walrus code.
 pub mod decode;
 pub mod feat;
+pub mod iso;
+pub mod norm;
